@@ -72,6 +72,8 @@ def main(tier, rep):
     finally:
         L.USE_DEFAULTS = False
     L.validate(rep, traces, relevant, PROP)
+    from drivers import connmodel
+    connmodel.design_and_replay(rep, tier, PROP, relevant)
     rep.set("evaluations", len(traces))
     rep.set("distinct_nontrivial", len({(t["h"]["kind"],) + tuple((s[1], s[2], s[3]) for s in t["steps"] if s[0] == "call" and s[3]) for t in traces}))
     rep.set("rule", "one execution per (stack, warm/fresh, read op, single-fault plan | server down | failing deserialiser, follow-up reads inside/after the retry window); "
